@@ -15,6 +15,8 @@ Core Lean only (linked into the executable model driver).
 * `check_params(p, names[, opt_names])` with the hooks `AMGCL_PARAM_UNKNOWN` / `AMGCL_PARAM_MISSING` → `unknownT`,
   `missingT`
 * `prm.erase("type")` of the run-time wrappers                                            → `PTree.erase`
+* a nested configuration (`precond.coarsening.aggr.eps_strong`): `ParamTable.exportAlong` / `exportValuesAt`, the
+  child's table being supplied by the caller
 
 A dotted path string `"precond.relax."` is represented by its list of segments: every path amgcl builds is
 `path + #name + "."` with `#name` a C identifier (no `.`; `ParamTable.Consistent` checks that on the regenerated
